@@ -26,10 +26,13 @@ CONSTANTS WSizes,     \* sizes a Write may have
           MaxFaults,  \* faults of the underlying connection (write and read side together)
           FaultPass,  \* WriteFault: how many of the failed frame's 1044 sealed bytes reach the wire (0 none .. 1044 all)
           RFaultAt,   \* ReadFault: after how many bytes of the frame the underlying read fails
+          Base,       \* frames the session has carried before (SecretConn!StreamAt).  The driver replays one dump at several
+                      \* REAL counter values (2^32-2, 2^32-1, 2^32, 2^63, 2^64-3, ...): any real value >= ArchN stands for it
+          ArchN,      \* the adversary's archive: the session's frames with counters 0 .. Min(Base, ArchN)-1
           ReuseNonce  \* FALSE = the code (Seal; incrNonce; conn.Write).  TRUE = nonce consumed only by a successful write:
                       \* checks/C20.py requires TLC to find the counterexamples to NoNonceReuseInv and Inv
 
-AllKinds == {"flip", "drop", "dup", "swap", "cutt", "cuth", "replay", "inject"}
+AllKinds == {"flip", "drop", "dup", "swap", "cutt", "cuth", "replay", "inject", "archive"}
 
 INSTANCE SecretConn WITH Honest <- {"A"}, Adv <- "M", SessOwner <- <<>>, SessEph <- <<>>, AdvEphs <- {},
                          SigBindsChallenge <- TRUE, DirectionalKeys <- TRUE
@@ -40,7 +43,7 @@ VARIABLES s,      \* the stream state (SecretConn!EmptyStream ...)
           hist    \* the path: <<action, args..., result>>
 vars == <<s, nw, nr, nf, hist>>
 
-Init == s = EmptyStream /\ nw = 0 /\ nr = 0 /\ nf = 0 /\ hist = <<>>
+Init == s = StreamAt(Base) /\ nw = 0 /\ nr = 0 /\ nf = 0 /\ hist = <<>>
 
 Step(r, a) == s' = r.st /\ hist' = Append(hist, a \o r.res)
 
@@ -71,7 +74,10 @@ DoManip == /\ s.nm < MaxManip /\ UNCHANGED <<nw, nr, nf>>
               \/ "replay" \in Kinds /\ \E j \in 1..(Min(Len(s.wire), MaxWire) + 1), i \in Recorded(s) :
                                             Step(Replay(s, j, i), <<"replay", j, i, 0>>)
               \/ "inject" \in Kinds /\ \E j \in 1..(Min(Len(s.wire), MaxWire) + 1), k \in InjKinds :
-                                            Step(Inject(s, j), <<"inject", j, s.rn, k>>)
+                                            Step(Inject(s, j), <<"inject", j, s.rn - Base, k>>)
+              \* a frame recorded at the start of the session is put in front of the j-th unread segment
+              \/ "archive" \in Kinds /\ \E j \in 1..(Min(Len(s.wire), MaxWire) + 1), c \in 0..(Min(Base, ArchN) - 1) :
+                                            Step(Archive(s, j, c), <<"archive", j, c, 0>>)
 
 Next == DoWrite \/ DoWriteFault \/ DoClose \/ DoRead \/ DoReadFault \/ DoManip
 Spec == Init /\ [][Next]_vars
@@ -82,6 +88,7 @@ Inv == /\ DeliveredIsPrefixOfSent(s)
        /\ OnlyGenuineFramesOpen(s)
        /\ CleanIsComplete(s)
        /\ NoNonceReuse(s)
+       /\ NonceOrder(s)
 \* separately, for the expected counterexamples with ReuseNonce = TRUE
 NoNonceReuseInv == NoNonceReuse(s)
 PrefixInv       == DeliveredIsPrefixOfSent(s)
